@@ -165,11 +165,16 @@ func (fr *frame) checkAsserts(anchor string, st *State) {
 		return
 	}
 	fr.enc.anchorsSeen = append(fr.enc.anchorsSeen, anchor)
-	for i, cl := range ct.Asserts {
+	nth := -1
+	for i0, cl := range ct.Asserts {
+		if cl.Anchor == anchor {
+			nth++ // ordinal among the clauses of this anchor (stable when other anchors get clauses)
+		}
+		i := nth
 		if cl.Anchor != anchor || !fr.enc.tagActive(cl.Tags) {
 			continue
 		}
-		fr.enc.assertHit[i] = true
+		fr.enc.assertHit[i0] = true
 		ctx := fr.specCtx(st, fr.oldState(), nil, fr.curBlock, fr.curIdx)
 		g, err := ctx.goal(cl.Expr)
 		if err != nil {
